@@ -3,6 +3,7 @@ package main
 // Frame precision for calls under contract: `modifies a b` havocs exactly the map / pointee named.
 
 import (
+	"go/token"
 	"go/ast"
 	"go/types"
 	"strings"
@@ -93,6 +94,8 @@ func (e *Exec) contractHeapNames(info *types.Info, call *ast.CallExpr) (map[stri
 			} else if a := argFor(fn, call, m); a != nil {
 				if id, ok := ast.Unparen(a).(*ast.Ident); ok {
 					cell = id.Name
+				} else if u, ok := ast.Unparen(a).(*ast.UnaryExpr); ok && u.Op == token.AND {
+					cell = freshCellOnly // &lv / &T{...}: a cell allocated at the call
 				}
 			}
 		}
